@@ -163,9 +163,29 @@ func main() {
 			lib.Fatalf("authenticateTokenForHost not found in %s", tokFile)
 		}
 		fmt.Fprintf(&b, "def tokenClientForCalls : Nat × Nat := (%d, %d)\n", countMethodCalls(authn, "ClientFor"), countMethodCalls(closure, "ClientFor"))
+		// does the function refuse a request whose already-bound upstream cluster differs from the cluster resolved now?
+		fmt.Fprintf(&b, "/-- AuthenticateToken compares info.UpstreamCluster with the cluster returned by ClientFor -/\ndef bindsTokenToUpstream : Bool := %v\n", comparesUpstream(g, authn))
+		fmt.Fprintf(&b, "/-- Authorize compares info.UpstreamCluster with the cluster returned by ClientFor -/\ndef bindsSarToUpstream : Bool := %v\n", comparesUpstream(g, authz))
 		b.WriteString("end KG.Gen.C12\n")
 		g.Emit("C12.lean", b.String())
 	})
+}
+
+// comparesUpstream: the function contains `info.UpstreamCluster != cluster` (or ==, either order).
+func comparesUpstream(g *lib.Gen, fn *ast.FuncDecl) bool {
+	found := false
+	ast.Inspect(fn, func(n ast.Node) bool {
+		be, ok := n.(*ast.BinaryExpr)
+		if !ok || (be.Op != token.NEQ && be.Op != token.EQL) {
+			return true
+		}
+		x, y := exprString(g, be.X), exprString(g, be.Y)
+		if (x == "info.UpstreamCluster" && y == "cluster") || (y == "info.UpstreamCluster" && x == "cluster") {
+			found = true
+		}
+		return true
+	})
+	return found
 }
 
 func countMethodCalls(node ast.Node, method string) int {
